@@ -6,11 +6,14 @@ package main
 import (
 	"crypto/sha256"
 	"encoding/hex"
+	"encoding/json"
 	"fmt"
 	"time"
 
 	"verif/harness/abci"
 	"verif/harness/hx"
+
+	simapp "github.com/KiraCore/sekai/app"
 
 	baskettypes "github.com/KiraCore/sekai/x/basket/types"
 	collectiveskeeper "github.com/KiraCore/sekai/x/collectives/keeper"
@@ -72,11 +75,27 @@ type Features struct {
 	NRoles          int  `json:"n_roles"`
 	Validators      int  `json:"validators"`
 	ExportMidVoting bool `json:"-"`
+	W               Windows `json:"windows"`
 }
+
+// Windows: the parameters that govern how long something is kept in state.  Small values make the
+// window FULL (steady state: entries are being pruned) within the few blocks of a history.
+type Windows struct {
+	SnapPeriod      int64  `json:"distributor_snap_period"`   // blocks of validator votes kept (default 1000)
+	PollSeconds     int    `json:"poll_duration_s"`           // default 86400: the poll is still active at export
+	BasketLimits    uint64 `json:"basket_limits_period_s"`    // historical mint/burn/swap amounts kept
+	Autocompound    uint64 `json:"autocompound_interval_blocks"`
+	MaxMischance    uint64 `json:"max_mischance"`             // missed blocks before a validator is inactivated
+	ProposalEndTime uint64 `json:"minimum_proposal_end_time_s"`
+	EnactmentTime   uint64 `json:"proposal_enactment_time_s"`
+	LongHistory     bool   `json:"long_history"`              // one block 700000 s long: the unstaking period (>= 604800 s) elapses before the export
+}
+
+func DefaultWindows() Windows { return Windows{1000, 86400, 86400, 17280, 110, 300, 300, false} }
 
 func AllFeatures() Features {
 	return Features{true, true, true, true, true, true, true, true, true, false, true, true, true, true, true, true, true, true, true, true, true, true, true, true, true, true, true, true,
-		2, 2, 2, 4, false}
+		2, 2, 2, 4, false, Windows{3, 86400, 86400, 2, 110, 300, 300, false}}
 }
 
 func RandomFeatures(r *hx.Rng) Features {
@@ -85,6 +104,26 @@ func RandomFeatures(r *hx.Rng) Features {
 		ValPaused: p(), ValInactive: p(), ValJailed: p(), ValJoin: p(), Absent: p(), Multistaking: p(), Undelegation: p(), Compound: p(), Basket: p(), Tokens: p(), Spending: p(),
 		Ubi: p(), Collective: p(), Custody: p(), Layer2: p(), Recovery: p(), Upgrade: r.Chance(25),
 		ExtraBlocks: r.Intn(4), NUndelegations: 1 + r.Intn(3), NRoles: 1 + r.Intn(3), Validators: 4 + r.Intn(2)}
+	f.W = DefaultWindows()
+	if r.Chance(60) {
+		f.W.SnapPeriod = int64(1 + r.Intn(5))
+	}
+	if r.Chance(40) {
+		f.W.PollSeconds = 10
+	}
+	if r.Chance(40) {
+		f.W.BasketLimits = 8
+	}
+	if r.Chance(50) {
+		f.W.Autocompound = uint64(1 + r.Intn(3))
+	}
+	if r.Chance(30) {
+		f.W.MaxMischance = uint64(2 + r.Intn(3))
+	}
+	if r.Chance(30) {
+		f.W.ProposalEndTime, f.W.EnactmentTime = 120, 60
+	}
+	f.W.LongHistory = r.Chance(20)
 	return f
 }
 
@@ -214,7 +253,7 @@ func Populate(c *abci.Chain, f Features, r *hx.Rng) *World {
 		w.tx("claim councilor", 0, govtypes.NewMsgClaimCouncilor(A(0), "council0", "user0", "desc", "soc", "contact", "avatar"))
 	}
 	if f.Poll {
-		w.tx("create poll", 0, govtypes.NewMsgPollCreate(A(0), "title", "description", "ref", "checksum", []string{"aaa", "bbb"}, []string{"sudo"}, 3, "string", 1, "86400s"))
+		w.tx("create poll", 0, govtypes.NewMsgPollCreate(A(0), "title", "description", "ref", "checksum", []string{"aaa", "bbb"}, []string{"sudo"}, 3, "string", 1, fmt.Sprintf("%ds", f.W.PollSeconds)))
 		w.tx("vote poll", 0, govtypes.NewMsgVotePoll(1, A(0), govtypes.PollOptionCustom, "aaa"))
 	}
 	if f.Tokens {
@@ -364,6 +403,15 @@ func Populate(c *abci.Chain, f Features, r *hx.Rng) *World {
 	}
 	w.end()
 
+	if f.W.LongHistory {
+		// the unstaking period elapses: an early undelegation is matured (claimable) at export time
+		if f.Multistaking && f.Undelegation {
+			w.begin(5, absent, nil)
+			w.tx("undelegate a2 (early)", 2, &mstypes.MsgUndelegate{DelegatorAddress: A(2).String(), ValidatorAddress: c.Validators[0].ValAddr.String(), Amounts: sdk.NewCoins(coin("ukex", 700))})
+			w.end()
+		}
+		w.emptyBlock(700000)
+	}
 	// voting period (default 10 min) passes, enactment follows
 	if f.ProposalDone {
 		w.emptyBlock(700)
@@ -397,7 +445,7 @@ func Populate(c *abci.Chain, f Features, r *hx.Rng) *World {
 	}
 	if f.Basket {
 		w.applyContent("create basket", &baskettypes.ProposalCreateBasket{Basket: baskettypes.Basket{Suffix: "b1", Description: "basket", SwapFee: sdk.NewDecWithPrec(1, 2), SlipppageFeeMin: sdk.NewDecWithPrec(1, 2),
-			TokensCap: sdk.NewDecWithPrec(9, 1), LimitsPeriod: 86400, MintsMin: sdk.NewInt(1), MintsMax: sdk.NewInt(1000000000), BurnsMin: sdk.NewInt(1), BurnsMax: sdk.NewInt(1000000000),
+			TokensCap: sdk.NewDecWithPrec(9, 1), LimitsPeriod: f.W.BasketLimits, MintsMin: sdk.NewInt(1), MintsMax: sdk.NewInt(1000000000), BurnsMin: sdk.NewInt(1), BurnsMax: sdk.NewInt(1000000000),
 			SwapsMin: sdk.NewInt(1), SwapsMax: sdk.NewInt(1000000000), Amount: sdk.ZeroInt(),
 			Tokens: []baskettypes.BasketToken{{Denom: "ubtc", Weight: sdk.NewDec(1), Amount: sdk.ZeroInt(), Deposits: true, Withdraws: true, Swaps: true},
 				{Denom: "xeth", Weight: sdk.NewDec(2), Amount: sdk.ZeroInt(), Deposits: true, Withdraws: true, Swaps: true}}}})
@@ -479,4 +527,27 @@ func Populate(c *abci.Chain, f Features, r *hx.Rng) *World {
 	}
 	_ = time.Second
 	return w
+}
+
+// NewOriginal creates the original chain of a history: the window parameters go into its genesis.
+func NewOriginal(seed uint64, f Features) *abci.Chain {
+	return abci.NewChain(abci.Config{Accounts: 6, Validators: f.Validators, Seed: seed,
+		Gov: func(g *govtypes.GenesisState) {
+			g.NetworkProperties.AutocompoundIntervalNumBlocks = f.W.Autocompound
+			g.NetworkProperties.MaxMischance = f.W.MaxMischance
+			if f.W.MaxMischance < 10 {
+				g.NetworkProperties.MischanceConfidence = 1
+			}
+			g.NetworkProperties.MinimumProposalEndTime = f.W.ProposalEndTime
+			g.NetworkProperties.ProposalEnactmentTime = f.W.EnactmentTime
+		},
+		Genesis: func(gs simapp.GenesisState, _ func(interface{}) []byte) {
+			var d map[string]interface{}
+			if json.Unmarshal(gs["distributor"], &d) == nil {
+				d["snap_period"] = fmt.Sprint(f.W.SnapPeriod)
+				if bz, err := json.Marshal(d); err == nil {
+					gs["distributor"] = bz
+				}
+			}
+		}})
 }
